@@ -4,7 +4,7 @@
 # existing suite (103 tests) still passes with the change. Leaves the worktree's tracked files unchanged.
 set -u
 ID=$1; X=$2
-WT=/tmp/wt/$ID; M=$WT/MUTANT
+WT=${WTBASE:-/tmp/wt}/$ID; M=$WT/MUTANT
 cd $WT || exit 2
 git checkout -q -- . 
 DEMO=$M/${X}_demo.rs
